@@ -98,6 +98,32 @@ int main(int argc, char **argv)
         roundtrip(id++, T, wv_content(rng, n, (n + pr) % 3 == 0 ? 0 : 1), cm, hm, rng.bytes(16), seed, twice && (n % 4 == 0), "len");
       }
   }
+  else if (mode == "ff")
+  {
+    // ECB, plaintext chosen so that the first ciphertext byte of every chunk after the first is 0xFF
+    // (and of one block in the middle of a chunk): the byte a decrypt-side look-ahead sees at a boundary
+    for (int rep = 0; rep < 3; ++rep)
+    {
+      auto key = rng.bytes(16);
+      int S = iobuffer::sum, chunks = 3 + rep;
+      std::vector<u8_t> P;
+      for (int b = 0; b < chunks * S / 16; ++b)
+      {
+        auto blk = rng.bytes(16);
+        if ((b * 16) % S == 0 || b == 1)
+        {
+          blk[0] = 0xFF;
+          decryaes d(key.data());
+          d.runaes_128bit(blk.data()); // so that E_k(blk) = FF ...
+        }
+        P.insert(P.end(), blk.begin(), blk.end());
+      }
+      auto tailb = rng.bytes(5);
+      P.insert(P.end(), tailb.begin(), tailb.end());
+      std::vector<u8_t> seed = {'f', 'f'};
+      roundtrip(id++, T, P, 0, rep % 3, key, seed, false, "ff-boundary");
+    }
+  }
   else if (mode == "same")
   {
     int chunks = atoi(argv[3]);
